@@ -614,10 +614,12 @@ def backward_slice(b, l, limit=60):
     return seen, sources
 
 
-def run_ab(facts, out):
-    o2 = type(out)()
-    dec, enc = ed.decode_encode_roots(facts, o2)
-    bodies, _ = ed.path_bodies(facts, dec)
+def run_ab(facts, out, bodies=None):
+    fixture = bodies is not None
+    if bodies is None:
+        o2 = type(out)()
+        dec, enc = ed.decode_encode_roots(facts, o2)
+        bodies, _ = ed.path_bodies(facts, dec)
     n = 0
     for b in bodies:
         for bb, t in b.calls():
@@ -641,7 +643,8 @@ def run_ab(facts, out):
                     if b.locals[s['pl']['l']]['s'].endswith('<usize>') or 'usize' in b.locals[s['pl']['l']]['s']:
                         _check_size(b, bi, s['rv']['ops'][1], 'range', loc_of(s['sp']), out, only_if_parse=True)
                         n += 1
-    out.anchor('AB', 'allocation / range sites on the decode path', n >= 8, '%d' % n)
+    if not fixture:
+        out.anchor('AB', 'allocation / range sites on the decode path', n >= 8, '%d' % n)
 
 
 def _check_size(b, bb, operand, what, where, out, only_if_parse=False):
@@ -810,10 +813,12 @@ def _ret_bytes(facts, body, depth):
     return res
 
 
-def run_u8(facts, out):
-    o2 = type(out)()
-    dec, enc = ed.decode_encode_roots(facts, o2)
-    bodies, _ = ed.path_bodies(facts, enc)
+def run_u8(facts, out, bodies=None):
+    fixture = bodies is not None
+    if bodies is None:
+        o2 = type(out)()
+        dec, enc = ed.decode_encode_roots(facts, o2)
+        bodies, _ = ed.path_bodies(facts, enc)
     n = 0
     for b in bodies:
         for bb, t in b.calls():
@@ -839,7 +844,8 @@ def run_u8(facts, out):
             out.add('U8', b.path, 'write_all', loc_of(t['sp']), not bad,
                     '' if not bad else 'write_all writes bytes that are not valid UTF-8: %r' % bad,
                     {'values': sorted(repr(v) for v in vals)})
-    out.anchor('U8', 'write_all sites in the encoder', n >= 20, '%d' % n)
+    if not fixture:
+        out.anchor('U8', 'write_all sites in the encoder', n >= 20, '%d' % n)
 
 
 # ------------------------------------------------------------------ PX
@@ -849,11 +855,13 @@ PANIC_PATHS = ('core::panicking::', 'std::rt::begin_panic', 'core::option::unwra
 PANIC_METHODS = {'unwrap', 'expect', 'unwrap_err', 'expect_err', 'unwrap_unchecked'}
 
 
-def run_px(facts, out):
-    o2 = type(out)()
-    dec, enc = ed.decode_encode_roots(facts, o2)
-    ids = facts.reachable_instances(dec + enc)
-    paths = sorted({facts.inst[i]['def'] for i in ids})
+def run_px(facts, out, paths=None):
+    fixture = paths is not None
+    if paths is None:
+        o2 = type(out)()
+        dec, enc = ed.decode_encode_roots(facts, o2)
+        ids = facts.reachable_instances(dec + enc)
+        paths = sorted({facts.inst[i]['def'] for i in ids})
     n = 0
     for p in paths:
         b = facts.bodies.get(p)
@@ -880,7 +888,8 @@ def run_px(facts, out):
             ok, why, how = discharge_panic(facts, b, bb, t, c, is_unwrap)
             out.add('PX', b.path, ('unwrap' if is_unwrap else 'panic') + ':' + c['name'], loc_of(t['sp']), ok, why,
                     {'discharged_by': how} if ok else None)
-    out.anchor('PX', 'explicit panic sites in reachable code', n >= 3, '%d' % n)
+    if not fixture:
+        out.anchor('PX', 'explicit panic sites in reachable code', n >= 3, '%d' % n)
 
 
 def discharge_panic(facts, b, bb, t, c, is_unwrap):
